@@ -9,6 +9,7 @@ import (
 	"io"
 	"os"
 	"path/filepath"
+	"runtime/pprof"
 	"sort"
 	"strings"
 	"time"
@@ -36,7 +37,8 @@ type modeOut struct {
 	Bad    []string `json:"bad,omitempty"`    // objects whose content does not hash to their name
 	Panic  string   `json:"panic,omitempty"`
 	Reads  int      `json:"reads,omitempty"` // idxread: successful object reads re-hashed
-	Left   int      `json:"left,omitempty"`  // files left in objects/pack after a rejected PackfileWriter
+	Left   int      `json:"left,omitempty"`  // pack-* files left in objects/pack after a rejected PackfileWriter
+	LeftTmp int     `json:"left_tmp,omitempty"` // tmp_* files left behind (informational: git ignores and prunes them)
 }
 
 type childLine struct {
@@ -204,8 +206,10 @@ func runStreamMode(mode string, data []byte, format, tmp string) modeOut {
 		st.Close()
 		if err != nil {
 			out.Err = err.Error()
-			left, _ := filepath.Glob(filepath.Join(dir, "objects", "pack", "*"))
+			left, _ := filepath.Glob(filepath.Join(dir, "objects", "pack", "pack-*"))
 			out.Left = len(left)
+			tmpf, _ := filepath.Glob(filepath.Join(dir, "objects", "pack", "tmp_*"))
+			out.LeftTmp = len(tmpf)
 			return out
 		}
 		out.Acc = true
@@ -357,6 +361,11 @@ func childMain() {
 	}
 	tmp := os.Getenv("C09_TMP")
 	os.MkdirAll(tmp, 0o755)
+	if pf := os.Getenv("C09_PROF"); pf != "" { // debugging aid only
+		f, _ := os.Create(pf)
+		pprof.StartCPUProfile(f)
+		defer pprof.StopCPUProfile()
+	}
 	for _, m := range muts {
 		data := Apply(sps, m)
 		format := mutFormat(sps, m)
@@ -398,6 +407,7 @@ func childMain() {
 	}
 	bw.Flush()
 	outF.Close()
+	pprof.StopCPUProfile()
 	os.Exit(0)
 }
 
